@@ -59,7 +59,7 @@ contract(CMD + "PropertyId.encode",
          params={"self": "enum:" + CMD + "PropertyId", "value": "union:bool|int[0,255]"},
          bind_varargs=["value"],
          requires=["implies(self == 0x00E3 or self == 0x0042, isinstance(value, bool))"],
-         ensures={"vendor_encoding": "result == vendor_value(self, value)"},
+         returns="vendor_value(self, value)",
          raises={"builtins.NotImplementedError": {"when": "self not in SUPPORTED_IDS"}})
 
 contract(CMD + "PropertyId.decode",
